@@ -2,11 +2,14 @@ package spec
 
 import (
 	"go/ast"
-	"go/token"
 	"go/types"
 
 	"lndlint/internal/an"
 )
+
+// c18BudgetRateRe is the canonical form of the rate the budget pays for the
+// request's inputs in BumpRequest.MaxFeeRateAllowed.
+const c18BudgetRateRe = `^lnwallet/chainfee\.NewSatPerKWeight\(\$recv\.Budget, sweep\.calcSweepTxWeight\(\$recv\.Inputs, [^()]*\)\)$`
 
 // c18RateCeilingClamps is the body of C18/rate-ceiling-clamps.
 func c18RateCeilingClamps(o *an.Obl, p *an.Prog) {
@@ -16,7 +19,7 @@ func c18RateCeilingClamps(o *an.Obl, p *an.Prog) {
 	f := p.Func(sw + "BumpRequest.MaxFeeRateAllowed")
 	// the budget rate in full: the request's budget over the weight of the
 	// request's inputs
-	const budgetRe = `^lnwallet/chainfee\.NewSatPerKWeight\(\$recv\.Budget, sweep\.calcSweepTxWeight\(\$recv\.Inputs, [^()]*\)\)$`
+	const budgetRe = c18BudgetRateRe
 	budget := canonTerm(budgetRe)
 	cap := an.FieldPath(an.Recv(), "MaxFeeRate")
 	nCap, nBudget := 0, 0
@@ -69,137 +72,7 @@ func c18RateCeilingClamps(o *an.Obl, p *an.Prog) {
 	notReassigned(o, g, c17ParamNames(g, 0)...)
 
 	// ---- the constructor
-	c := p.Func(sw + "NewLinearFeeFunction")
-	notReassigned(o, c, c17ParamNames(c, 0)...)
-	nLit := 0
-	for _, cl := range p.CompositeLitsOf(p.LookupType("sweep", "LinearFeeFunction")) {
-		if cl.Fn == nil || an.IsTestish(cl.Fn.Filename()) {
-			continue
-		}
-		if cl.Fn.Root().ID != c.ID {
-			o.FailAt(cl.Fn.ID+"#builds-fee-function", cl.Where, "%s builds a LinearFeeFunction outside its constructor", cl.Fn.ID)
-			continue
-		}
-		nLit++
-		ending := ""
-		for _, el := range cl.Node.(*ast.CompositeLit).Elts {
-			kv, ok := el.(*ast.KeyValueExpr)
-			if !ok {
-				o.FailAt(c.ID+"#literal", cl.Where, "positional LinearFeeFunction literal")
-				continue
-			}
-			switch an.Text(kv.Key) {
-			case "endingFeeRate":
-				ending = cl.Fn.Canon(kv.Value)
-				o.Site("constructor endingFeeRate = %s", an.Text(kv.Value))
-				if ending != "$p0" {
-					o.FailAt(c.ID+"#ending", c.Where(kv.Pos()), "endingFeeRate is initialised from %s", an.Text(kv.Value))
-				}
-			case "currentFeeRate", "startingFeeRate":
-				// a rate placed directly in the literal bypasses the cap of the
-				// starting rate: only the ceiling itself is known not to exceed it
-				o.Site("constructor literal %s = %s", an.Text(kv.Key), an.Text(kv.Value))
-				if v := cl.Fn.Canon(kv.Value); v != "$p0" {
-					o.FailAt(c.ID+"#literal-"+an.Text(kv.Key), c.Where(kv.Pos()), "the literal sets %s to %s; without the cap only the ceiling itself may be placed there", an.Text(kv.Key), v)
-				}
-			}
-		}
-		if ending == "" {
-			o.FailAt(c.ID+"#ending", cl.Where, "a LinearFeeFunction literal does not set endingFeeRate")
-		}
-	}
-	if nLit == 0 {
-		o.FailAt(c.ID+"#ending", c.Where(c.Body.Pos()), "the constructor builds no LinearFeeFunction literal")
-	}
-	// the ceiling is never written after construction
-	for _, fn := range p.Funcs(false, "sweep") {
-		for _, s := range fn.Assigns(an.Field(sw+"LinearFeeFunction", "endingFeeRate", nil), true) {
-			o.FailAt(fn.ID+"#writes-ending", s.Where(), "%s writes the ceiling of an existing fee function: %s", fn.ID, s.String())
-		}
-	}
-
-	// the starting rate is never above the ending rate when the per-block
-	// delta `end - start` is computed (the delta is stored in an unsigned
-	// type): either `start > end` is false or start was set to end
-	var deltas, caps []an.Site
-	var startObj, endObj types.Object
-	for _, v := range c.Graph().V {
-		as, ok := v.Node.(*ast.AssignStmt)
-		if !ok {
-			continue
-		}
-		ast.Inspect(as, func(n ast.Node) bool {
-			if _, isLit := n.(*ast.FuncLit); isLit {
-				return false
-			}
-			be, ok := n.(*ast.BinaryExpr)
-			if !ok || be.Op != token.SUB {
-				return true
-			}
-			x, xok := ast.Unparen(be.X).(*ast.Ident)
-			y, yok := ast.Unparen(be.Y).(*ast.Ident)
-			if !xok || !yok || c.Info().TypeOf(x) == nil || an.TypeID(c.Info().TypeOf(x)) != "lnwallet/chainfee.SatPerKWeight" {
-				return true
-			}
-			ex, sy := c17ObjOfIdent(c, x), c17ObjOfIdent(c, y)
-			if (endObj != nil && ex != endObj) || (startObj != nil && sy != startObj) {
-				o.FailAt(c.ID+"#delta", c.Where(be.Pos()), "a second rate difference %s", an.Text(be))
-				return true
-			}
-			endObj, startObj = ex, sy
-			deltas = append(deltas, an.Site{Fn: c, V: v, Node: as})
-			return true
-		})
-	}
-	if !need(o, c, "delta computation from end - start", deltas, 1) {
-		return
-	}
-	// end: one definition, the ceiling of the function under construction
-	for i, w := range c17WritesOf(c, endObj) {
-		sel, _ := w.Rhs.(*ast.SelectorExpr)
-		ok := i == 0 && w.Tok == token.DEFINE && !w.Tuple && sel != nil && an.Field(sw+"LinearFeeFunction", "endingFeeRate", nil)(c, sel)
-		if ok {
-			base, _ := ast.Unparen(sel.X).(*ast.Ident)
-			var def ast.Expr
-			if base != nil {
-				def = c.UniqueDef(base)
-			}
-			u, _ := def.(*ast.UnaryExpr)
-			isLit := false
-			if u != nil && u.Op == token.AND {
-				_, isLit = ast.Unparen(u.X).(*ast.CompositeLit)
-			}
-			ok = isLit
-		}
-		o.Site("%s = %s", endObj.Name(), an.Text(w.Node))
-		if !ok {
-			o.FailAt(c.ID+"#end-definition", c.Where(w.Node.Pos()), "the rate the start is capped at is written by %s, expected one definition from the ceiling of the function under construction", an.Text(w.Node))
-		}
-	}
-	// start: defined once, afterwards only `start = end`
-	for i, w := range c17WritesOf(c, startObj) {
-		s, inGraph := c17SiteOfNode(c, w.Node)
-		switch {
-		case i == 0 && w.Tok == token.DEFINE && inGraph:
-			o.Site("start defined by %s", an.Text(w.Node))
-		case inGraph && w.Tok == token.ASSIGN && w.Whole && !w.Tuple && w.Rhs != nil && c17ObjTerm(endObj)(c, ast.Unparen(w.Rhs)):
-			o.Site("start = end at %s", s.Where())
-			caps = append(caps, s)
-		default:
-			o.FailAt(c.ID+"#start-reassigned", c.Where(w.Node.Pos()), "the starting rate is changed by %s; only the cap `start = end` is tabled", an.Text(w.Node))
-		}
-	}
-	le := an.CmpX(c17ObjTerm(startObj), an.LE, c17ObjTerm(endObj), "start <= end")
-	if len(caps) == 0 {
-		// rejecting instead of capping is as good
-		guardedAll(o, c, deltas, le)
-	} else {
-		mustDoUnless(o, c, "start = end", caps, deltas, le)
-	}
-	for _, s := range c.Assigns(an.Field(sw+"LinearFeeFunction", "currentFeeRate", nil), false) {
-		o.Site("%s", s.String())
-		before(o, c, "the cap of the starting rate", deltas, "the assignment of currentFeeRate", []an.Site{s})
-	}
+	c18CtorClamps(o, p)
 
 	// ---- the schedule clamps at the ceiling
 	h := p.Func(sw + "LinearFeeFunction.feeRateAtPosition")
